@@ -538,7 +538,7 @@ theorem classRegs_reaches (c : ClassD) (h : ((classRegs c).map (·.1)).Nodup) (g
 
 example :
     let c : ClassD := ⟨5, [⟨1, 1, 10, .ctor⟩, ⟨1, 1, 11, .ctor⟩, ⟨2, 2, 12, .dtor⟩, ⟨3, 3, 13, .method⟩,
-      ⟨4, 4, 14, .method⟩, ⟨3, 3, 15, .method⟩]⟩
+      ⟨4, 4, 14, .method⟩, ⟨3, 3, 15, .method⟩], 9⟩
     classRegs c = [(gcName, 12), (3, 13), (4, 14)] ∧ ctorRegs c = [(5, 10)] ∧
       ((classRegs c).map (·.1)).Nodup := by decide
 
@@ -580,5 +580,66 @@ theorem gc_runs_destructor_once (n c p : Nat) : gcRuns (n + 1) ⟨c, some p⟩ =
 /-- the destructor body itself dispatches like any method without arguments -/
 example : run (selfOkOf 4) (gen .dtor [⟨[], false⟩]) [ctorValue 4 1] = .ret [⟨0, 0, some (ctorValue 4 1), []⟩] 0 ∧
     run (selfOkOf 4) (gen .dtor [⟨[], false⟩]) [ctorValue 4 1, ⟨.number, 0, 2⟩] = .error [] := by decide
+
+/-! ### one metatable name per class, at every site -/
+
+theorem mem_registry (classes : List ClassD) (c : ClassD) (h : c ∈ classes) : c.mt ∈ registry classes := by
+  simp only [registry, classSites, List.mem_filterMap]
+  exact ⟨c, h, rfl⟩
+
+/-- every wrapped class gets its metatable created, also a class whose method table is empty
+    (constructors only) -/
+theorem registry_complete (classes : List ClassD) : registry classes = classes.map (·.mt) := by
+  induction classes with
+  | nil => rfl
+  | cons c cs ih => simp [registry, classSites] at ih ⊢
+
+/-- an object made by a constructor of a wrapped class passes the object test of that class's methods
+    and destructor: created, attached and demanded name are one name -/
+theorem constructed_accepted_by_own_methods (classes : List ClassD) (c : ClassD) (h : c ∈ classes)
+    (hn : c.mt ≠ noMeta) (d : Nat) :
+    demands (classSites c).demanded (attachedValue (registry classes) (classSites c).attached d) = true := by
+  simp [demands, attachedValue, classSites, mem_registry classes c h]
+
+/-- ... and is accepted wherever a pointer to its class is an argument -/
+theorem constructed_accepted_as_argument (classes : List ClassD) (i : Nat) (c : ClassD)
+    (h : classes[i]? = some c) (d : Nat) :
+    ∃ m, argDemanded classes i = some m ∧
+      demands m (attachedValue (registry classes) (classSites c).attached d) = true := by
+  refine ⟨c.mt, by simp [argDemanded, h], ?_⟩
+  simp [demands, attachedValue, classSites, mem_registry classes c (List.mem_of_getElem? h)]
+
+/-- classes with different names never accept each other's objects -/
+theorem constructed_rejected_by_other_name (reg : List Nat) (name other d : Nat) (h : name ≠ other)
+    (ho : other ≠ noMeta) : demands other (attachedValue reg name d) = false := by
+  simp only [demands, attachedValue]
+  by_cases hr : name ∈ reg
+  · simp [hr, h]
+  · simp [hr, Ne.symm ho]
+
+/-- a name nobody created: the constructor's userdata has no metatable and passes no test at all
+    (what happens when `luaopen` skips a class, or when a site spells the name differently) -/
+theorem uncreated_name_accepted_nowhere (reg : List Nat) (name other d : Nat) (h : name ∉ reg)
+    (ho : other ≠ noMeta) : demands other (attachedValue reg name d) = false := by
+  simp [demands, attachedValue, h, Ne.symm ho]
+
+/-- a method called on an object its own class constructed dispatches on the arguments above it -/
+theorem method_on_constructed_named (k : Kind) (hk : k.selfOffset = 1) (ovs : List Overload)
+    (classes : List ClassD) (c : ClassD) (h : c ∈ classes) (d : Nat)
+    (args : List Val) (hz : (byCount (luaCalls k ovs) 0).length ≤ 1) :
+    run (demands (classSites c).demanded) (gen k ovs)
+        (attachedValue (registry classes) (classSites c).attached d :: args)
+      = expectedArgs (luaCalls k ovs) (some (attachedValue (registry classes) (classSites c).attached d)) args := by
+  rw [dispatch_correct _ k ovs _ hz]
+  have : demands (classSites c).demanded (attachedValue (registry classes) (classSites c).attached d) = true := by
+    simp [demands, attachedValue, classSites, mem_registry classes c h]
+  simp [expected, hk, this]
+
+example :
+    let classes : List ClassD := [⟨5, [⟨1, 1, 10, .ctor⟩], 7⟩, ⟨6, [⟨1, 1, 20, .ctor⟩, ⟨3, 3, 21, .method⟩], 8⟩]
+    registry classes = [7, 8] ∧ classRegs classes[0] = [] ∧ argDemanded classes 0 = some 7 ∧
+      demands 7 (attachedValue (registry classes) 7 1) = true ∧
+      demands 8 (attachedValue (registry classes) 7 1) = false ∧
+      demands 7 (attachedValue [8] 7 1) = false := by decide
 
 end Shroud.LuaDispatch
